@@ -8,19 +8,23 @@ allocator → verifier → stop announcer → (restart for a pending verify) →
 that never ends is a livelock of the real loop (each link is a goroutine reporting back to the loop).
 
 * `workersQuiet s`: no worker completion is pending that no gate holds (the fixed points of `runWorkers`).
-* **Finding** (`Flap`, `flap_forever`): with a verification request pending (`doVerify`) and a storage whose
-  `Open` fails (`failOpen`), the chain never ends: `handleStopped` restarts the torrent because `doVerify` is
-  set, the allocator fails, `stop(err)` leaves `doVerify` set, the stop announcer reports, `handleStopped`
-  restarts the torrent … (`handleAllocationDone`: `if al.Error != nil { t.stop(err); return }` does not clear
-  `t.doVerify`; `handleStopped`: `if t.doVerify { t.bitfield = nil; t.start() }`).
+* `runWorkers_quiet`: from every state of the invariants the chain ends, within `wrank ≤ 11` links.
+
+History (finding C04-F8): before rain's fix "a stop caused by an error withdraws a pending verification request"
+(`St.stop`: `doVerify := s.doVerify && !err`) the chain did not end when a verification was pending and the
+storage's `Open` failed: `handleStopped` restarted the torrent because `doVerify` was set, the allocator failed,
+`stop(err)` left `doVerify` set, the stop announcer reported, `handleStopped` restarted the torrent … — proved
+here at the time as `flap_forever` / `verify_failOpen_livelock` about the model of the unrepaired code (commit
+0208222 of this repository); with the fix those statements are false and the exception
+"unless a verification is pending while `Open` fails" is gone from every theorem below.  (A copy of the pre-fix
+`stop`, `allocatorRun` and `runWorkers` would be needed to keep the livelock as a theorem; it is not kept.)
 -/
 namespace Rain.Loop
-
 /-- A worker completion is pending and no gate holds it (the guards of `runWorkers`). -/
 def workersPending (s : St) : Bool :=
   (s.stopAnn && !s.stopHang) || (s.allocator && !s.gateOpen) || (s.verifier && !s.gateRead) ||
   (match s.writing with
-   | some w => !s.gateWrite || !w.good
+   | some w => if w.written then !s.gateWriteDone else (!s.gateWrite || !w.good)
    | none => false)
 
 /-- Nothing left to do for `runWorkers` (or the loop has panicked). -/
@@ -44,9 +48,29 @@ theorem runWorkers_of_quiet (n : Nat) (m : M) (h : workersQuiet m.1 = true) : ru
       · next w hw =>
         rw [hw] at h4
         simp only at h4
-        rw [h4]
-        simp
+        cases hwr : w.written
+        · simp only [hwr, Bool.false_eq_true, ↓reduceIte] at h4 ⊢
+          rw [h4]; simp
+        · simp only [hwr, ↓reduceIte] at h4 ⊢
+          rw [h4]; simp
       · rfl
+
+/-- Not quiet and not panicked: what `workersQuiet = false` says, guard by guard. -/
+theorem quiet_of_guards (s : St) (hp : s.panicked = none) (h1 : ¬(s.stopAnn && !s.stopHang) = true)
+    (h2 : ¬(s.allocator && !s.gateOpen) = true) (h3 : ¬(s.verifier && !s.gateRead) = true)
+    (h4 : ∀ w, s.writing = some w →
+      (w.written = true → ¬(!s.gateWriteDone) = true) ∧ (w.written = false → ¬(!s.gateWrite || !w.good) = true)) :
+    workersQuiet s = true := by
+  unfold workersQuiet workersPending
+  simp only [hp, Option.isSome_none, Bool.false_or, Bool.not_eq_true', Bool.or_eq_false_iff]
+  refine ⟨⟨⟨by simpa using h1, by simpa using h2⟩, by simpa using h3⟩, ?_⟩
+  cases hw : s.writing with
+  | none => rfl
+  | some w =>
+    obtain ⟨a, b⟩ := h4 w hw
+    cases hwr : w.written
+    · simpa [hwr] using b hwr
+    · simpa [hwr] using a hwr
 
 /-- Fuel composes: running `a + b` links is running `a`, then `b`. -/
 theorem runWorkers_add (a b : Nat) (m : M) : runWorkers (a + b) m = runWorkers b (runWorkers a m) := by
@@ -56,8 +80,7 @@ theorem runWorkers_add (a b : Nat) (m : M) : runWorkers (a + b) m = runWorkers b
     rw [Nat.add_right_comm]
     by_cases hq : workersQuiet m.1 = true
     · rw [runWorkers_of_quiet _ m hq, runWorkers_of_quiet _ m hq, runWorkers_of_quiet _ m hq]
-    · have hnq : ∀ x : M, x = m → workersQuiet x.1 = true → False := fun x hx h => hq (hx ▸ h)
-      simp only [runWorkers]
+    · simp only [runWorkers]
       split
       · next h1 => exact absurd (by unfold workersQuiet; simp [h1]) hq
       split
@@ -67,101 +90,25 @@ theorem runWorkers_add (a b : Nat) (m : M) : runWorkers (a + b) m = runWorkers b
       split
       · exact ih _
       split
-      · next w hw =>
+      · next h0 h1 h2 h3 _ w hw =>
         split
-        · exact ih _
-        · next h1 h2 h3 h4 h5 =>
-          exfalso; apply hq
-          unfold workersQuiet workersPending
-          rw [hw]
-          simp only [Bool.or_eq_true, Bool.not_eq_true', not_or, Bool.not_eq_false] at h5
-          simp_all
-          refine ⟨⟨?_, ?_⟩, ?_⟩
-          · cases h1 : m.1.stopAnn <;> simp_all
-          · cases h1 : m.1.allocator <;> simp_all
-          · cases h1 : m.1.verifier <;> simp_all
-      · next h1 h2 h3 h4 hw =>
-        exfalso; apply hq
-        unfold workersQuiet workersPending
-        rw [hw]
-        simp_all
-        refine ⟨⟨?_, ?_⟩, ?_⟩
-        · cases h1 : m.1.stopAnn <;> simp_all
-        · cases h1 : m.1.allocator <;> simp_all
-        · cases h1 : m.1.verifier <;> simp_all
+        · split
+          · exact ih _
+          · next hwr hg =>
+            refine absurd (quiet_of_guards m.1 (by simpa using h0) h1 h2 h3 fun w' hw' => ?_) hq
+            rw [hw] at hw'; cases hw'
+            exact ⟨fun _ => hg, fun h => by rw [hwr] at h; cases h⟩
+        · split
+          · exact ih _
+          · next hwr hg =>
+            refine absurd (quiet_of_guards m.1 (by simpa using h0) h1 h2 h3 fun w' hw' => ?_) hq
+            rw [hw] at hw'; cases hw'
+            exact ⟨fun h => absurd h hwr, fun _ => hg⟩
+      · next h0 h1 h2 h3 _ hw =>
+        refine absurd (quiet_of_guards m.1 (by simpa using h0) h1 h2 h3 fun w' hw' => ?_) hq
+        rw [hw] at hw'; cases hw'
 
-/-! ### The livelock: a pending verify and a storage that cannot open the files -/
-
-/-- The two phases of the endless restart: stopping (the stop announcer about to report) and allocating (the
-allocator about to fail), with a verification pending and `Open` failing. -/
-structure Flap (s : St) : Prop where
-  np : s.panicked = none
-  errC : s.errC = true
-  dv : s.doVerify = true
-  info : s.info = true
-  fo : s.failOpen = true
-  sh : s.stopHang = false
-  go : s.gateOpen = false
-  ver : s.verifier = false
-  loaded : s.loaded = false
-  peers : s.peers = []
-  phase : (s.stopAnn = true ∧ s.allocator = false) ∨ (s.stopAnn = false ∧ s.allocator = true ∧ s.errC = true)
-
-theorem Flap.pending {s : St} (h : Flap s) : workersQuiet s = false := by
-  unfold workersQuiet workersPending
-  rcases h.phase with ⟨a, _⟩ | ⟨_, a, _⟩
-  · simp [h.np, a, h.sh]
-  · simp [h.np, a, h.go]
-
-theorem stop_gates_off_open (s : St) (e : Bool) (ho : s.gateOpen = false) : (s.stop e).gateOpen = false := by
-  rw [stop_eq]
-  split
-  · exact ho
-  · simp only [stopRun, stopFin_gateOpen, stopVer_gateOpen]
-    unfold stopAlloc
-    repeat' split
-    all_goals simp [ho]
-
-/-- stopping → allocating: the stop announcer reports, `doVerify` restarts the torrent. -/
-theorem Flap.afterStopped {m : M} (h : Flap m.1) (hs : m.1.stopAnn = true) (ha : m.1.allocator = false) :
-    Flap (handleStopped m).1 := by
-  obtain ⟨np, _, dv, info, fo, sh, go, ver, loaded, peers, _⟩ := h
-  unfold handleStopped
-  simp only [onSt_fst, dv, ↓reduceIte]
-  unfold startCore
-  simp only [onSt_fst, info, loaded, ↓reduceIte, Bool.false_eq_true, ha]
-  constructor <;> simp_all
-
-/-- `stop(err)` of a running torrent with a verification pending: the request survives. -/
-theorem flap_stop (x : St) (e : Bool) (hr : Running x) (np : x.panicked = none) (dv : x.doVerify = true)
-    (info : x.info = true) (fo : x.failOpen = true) (sh : x.stopHang = false) (go : x.gateOpen = false) :
-    Flap (x.stop e) := by
-  obtain ⟨_, f2, f3, f4, f5, f6, _, _, f9, _⟩ := stop_running_fields x e hr
-  exact ⟨by rw [stop_panicked]; exact np, f2, by simpa using dv, by simpa using info, by simpa using fo,
-    by simpa using sh, stop_gates_off_open x e go, f5, f6, f9, Or.inl ⟨f3, f4⟩⟩
-
-/-- allocating → stopping: `Open` fails, `stop(err)`; the verification request survives. -/
-theorem Flap.afterAlloc {m : M} (h : Flap m.1) (hs : m.1.stopAnn = false) (ha : m.1.allocator = true)
-    (he : m.1.errC = true) : Flap (allocatorRun m).1 := by
-  obtain ⟨np, _, dv, info, fo, sh, go, ver, loaded, peers, _⟩ := h
-  unfold allocatorRun
-  dsimp only
-  rw [if_pos fo]
-  simp only [onSt_fst]
-  exact flap_stop _ true ⟨he, hs⟩ np dv info fo sh go
-
-/-- **The chain never ends**: whatever the fuel, a worker completion is still pending. -/
-theorem flap_forever (n : Nat) (m : M) (h : Flap m.1) : Flap (runWorkers n m).1 := by
-  induction n generalizing m with
-  | zero => exact h
-  | succ n ih =>
-    rcases h.phase with ⟨a, b⟩ | ⟨a, b, c⟩
-    · rw [runWorkers_stopped n m h.np a h.sh]
-      exact ih _ (h.afterStopped a b)
-    · rw [runWorkers_alloc n m h.np a b h.go]
-      exact ih _ (h.afterAlloc a b c)
-
-/-! ### Everywhere else the chain ends: a rank that every worker completion decreases -/
+/-! ### a rank that every worker completion decreases -/
 
 /-- The lifecycle part of the rank: how many of "stop announcer reports / allocator / verifier" can still
 follow. -/
@@ -171,19 +118,35 @@ def phase (s : St) : Nat :=
   else if s.verifier then 2
   else 0
 
-/-- An upper bound on the number of worker completions that can still follow (6 for a write in flight: its
-completion may stop the torrent and so start a whole stop → verify chain). -/
-def wrank (s : St) : Nat := (if s.writing.isSome then 6 else 0) + phase s
+/-- The piece writer's part: storage calls still to be made (7: their completion may be held, and the delivery
+of the result may stop the torrent and so start a whole stop → verify chain), or a result held / to be
+delivered (6). -/
+def jobRank (s : St) : Nat :=
+  match s.writing with
+  | some w => if w.written then 6 else 7
+  | none => 0
+
+/-- An upper bound on the number of worker completions that can still follow. -/
+def wrank (s : St) : Nat := jobRank s + phase s
 
 theorem phase_le (s : St) : phase s ≤ 4 := by
   unfold phase
   repeat' split
   all_goals omega
 
-theorem wrank_le (s : St) : wrank s ≤ 10 := by
+theorem jobRank_le (s : St) : jobRank s ≤ 7 := by
+  unfold jobRank
+  repeat' split
+  all_goals omega
+
+theorem wrank_le (s : St) : wrank s ≤ 11 := by
   have := phase_le s
+  have := jobRank_le s
   unfold wrank
-  split <;> omega
+  omega
+
+theorem jobRank_congr {s s' : St} (h : s'.writing = s.writing) : jobRank s' = jobRank s := by
+  unfold jobRank; rw [h]
 
 theorem stop_allocator_false (s : St) (e : Bool) (h : s.allocator = false) : (s.stop e).allocator = false := by
   rw [stop_eq]
@@ -196,6 +159,15 @@ theorem stop_verifier_false (s : St) (e : Bool) (h : s.verifier = false) : (s.st
   split
   · exact h
   · exact (stopRun_fields s e).2.2.1
+
+/-- A stop caused by an error withdraws the verification request (fix C04-F8). -/
+theorem stop_true_doVerify (s : St) (hr : Running s) : (s.stop true).doVerify = false := by
+  have hst : ¬(s.status = .stopping ∨ s.status = .stopped) := by
+    rintro (h | h)
+    · have := ((status_stopping_iff s).1 h).2; rw [hr.2] at this; cases this
+    · have := (status_stopped_iff s).1 h; rw [hr.1] at this; cases this
+  rw [stop_eq, if_neg hst]
+  simp [stopRun, stopA]
 
 /-- The stop announcer reports: what is left is at most the restart for a pending verify. -/
 theorem phase_handleStopped (m : M) (hs : m.1.stopAnn = true) (hh : m.1.stopHang = false)
@@ -232,8 +204,8 @@ theorem hadFresh_doVerify_false' (m : M) : (hadFresh m).1.doVerify = false := by
   unfold hadFresh
   dsimp only
   split
-  · simp
-  · next h => simpa using h
+  · simp only [onSt_fst]; exact stop_doVerify_false _ _ rfl
+  · next h => exact hadCheck_doVerify_false _ (by simpa using h)
 
 theorem hadFresh_allocator_false (m : M) (h : m.1.allocator = false) : (hadFresh m).1.allocator = false := by
   unfold hadFresh
@@ -257,7 +229,7 @@ theorem hadInstall_queueOK (m : M) (mi : Bool) (hq : QueueOK m.1) : QueueOK (had
   exact hq q hq' msg hmsg
 
 /-- The allocation result: the allocator is gone; whatever follows, a stop it causes has withdrawn or never
-had a verification request — provided `Open` does not fail while one is pending. -/
+had a verification request. -/
 theorem handleAllocationDone_post (m : M) (ex mi : Bool) (hq : QueueOK m.1) (hs : m.1.stopAnn = false)
     (hbf : m.1.doVerify = true → m.1.bf = none) :
     (handleAllocationDone m ex mi).1.allocator = false ∧
@@ -284,7 +256,7 @@ theorem handleAllocationDone_post (m : M) (ex mi : Bool) (hq : QueueOK m.1) (hs 
     repeat' split
     · unfold hadTrust
       refine ⟨hadCheck_allocator_false _ (by simpa using ha0), fun _ => ?_, ?_⟩
-      · simp only [hadCheck_doVerify, onSt_fst, markPaddingPieces_doVerify]; rw [hd0]; exact hdv
+      · exact hadCheck_doVerify_false _ (by simp only [onSt_fst, markPaddingPieces_doVerify]; rw [hd0]; exact hdv)
       · rw [hadCheck_writing _ (hq0.of_peers (by simp))]; simpa using hw0
     · exact ⟨hadFresh_allocator_false _ ha0, fun _ => hadFresh_doVerify_false' _, (hadFresh_writing _ hq0).trans hw0⟩
     · exact ⟨by simpa using ha0, fun h => by simp [hs0] at h, by simpa using hw0⟩
@@ -292,29 +264,22 @@ theorem handleAllocationDone_post (m : M) (ex mi : Bool) (hq : QueueOK m.1) (hs 
     · exact ⟨hadFresh_allocator_false _ ha0, fun _ => hadFresh_doVerify_false' _, (hadFresh_writing _ hq0).trans hw0⟩
     · exact ⟨by simpa using ha0, fun h => by simp [hs0] at h, by simpa using hw0⟩
 
-theorem allocatorRun_post (m : M) (hq : QueueOK m.1) (hs : m.1.stopAnn = false)
-    (hbf : m.1.doVerify = true → m.1.bf = none) (hfl : m.1.failOpen = true → m.1.doVerify = false) :
+theorem allocatorRun_post (m : M) (hq : QueueOK m.1) (hr : Running m.1)
+    (hbf : m.1.doVerify = true → m.1.bf = none) :
     (allocatorRun m).1.allocator = false ∧
     ((allocatorRun m).1.stopAnn = true → (allocatorRun m).1.doVerify = false) ∧
     (allocatorRun m).1.writing = m.1.writing := by
-  unfold allocatorRun
-  dsimp only
+  rw [allocatorRun_eq]
   split
-  · next hf =>
+  · unfold allocFail
     simp only [onSt_fst]
-    exact ⟨stop_allocator_false _ _ rfl, fun _ => by simpa using hfl hf, by simp⟩
-  · obtain ⟨a, b, c⟩ := handleAllocationDone_post
-      (onSt m fun s => { s with
-        sto := s.sto ++ ((List.range s.cfg.flens.length).filter (fun i => !(s.cfg.fpads.getD i false))).map (fun i =>
-          s!"open:{fileName s.cfg i}:{s.cfg.flens.getD i 0}:" ++ (if s.fileExists.getD i false then "existed" else "new")),
-        fileExists := (List.range s.cfg.flens.length).map (fun i => s.fileExists.getD i false ||
-          ((List.range s.cfg.flens.length).filter (fun i => !(s.cfg.fpads.getD i false))).contains i),
-        known := (List.range s.cfg.flens.length).map (fun i => s.known.getD i false ||
-          ((List.range s.cfg.flens.length).filter (fun i => !(s.cfg.fpads.getD i false))).contains i) })
-      (((List.range m.1.cfg.flens.length).filter (fun i => !(m.1.cfg.fpads.getD i false))).any fun i => m.1.fileExists.getD i false)
-      (((List.range m.1.cfg.flens.length).filter (fun i => !(m.1.cfg.fpads.getD i false))).any fun i => !(m.1.fileExists.getD i false))
-      (hq.of_peers (by simp)) (by simpa using hs) (by simpa using hbf)
-    exact ⟨a, b, c⟩
+    exact ⟨stop_allocator_false _ _ (by simp [allocFailOpen]),
+      fun _ => stop_true_doVerify _ (hr.congr (by simp) (by simp)), by simp⟩
+  · obtain ⟨a, b, c⟩ := handleAllocationDone_post (allocOkOpen m)
+      ((allocData m.1).any fun i => m.1.fileExists.getD i false)
+      ((allocData m.1).any fun i => !(m.1.fileExists.getD i false))
+      (hq.of_peers (by simp)) (by simpa using hr.2) (by simpa using hbf)
+    exact ⟨a, b, by simpa using c⟩
 
 theorem handleVerificationDone_post (m : M) (hq : QueueOK m.1) (ha : m.1.allocator = false) :
     (handleVerificationDone m).1.allocator = false ∧ (handleVerificationDone m).1.verifier = false ∧
@@ -334,10 +299,11 @@ theorem handleVerificationDone_post (m : M) (hq : QueueOK m.1) (ha : m.1.allocat
   dsimp only
   split
   · simp only [onSt_fst]
-    exact ⟨stop_allocator_false _ _ (by simpa using ha), stop_verifier_false _ _ (by simpa using hv0), by simp, by simp⟩
+    exact ⟨stop_allocator_false _ _ (by simpa using ha), stop_verifier_false _ _ (by simpa using hv0),
+      stop_doVerify_false _ _ rfl, by simp⟩
   · next hd =>
     refine ⟨hadCheck_allocator_false _ (by simpa using ha), hadCheck_verifier_false _ (by simpa using hv0), ?_, ?_⟩
-    · simpa using hd
+    · exact hadCheck_doVerify_false _ (by simpa using hd)
     · rw [hadCheck_writing _ hq1]; simp
 
 theorem handlePieceWriteDone_writing_none (m : M) (w : WriteJob) (e : Bool) :
@@ -347,27 +313,44 @@ theorem handlePieceWriteDone_writing_none (m : M) (w : WriteJob) (e : Bool) :
   repeat' split
   all_goals simp [pwdReset]
 
-theorem writerRun_writing_none (m : M) (w : WriteJob) : (writerRun m w).1.writing = none := by
+/-- The writer's storage calls: the result is handled (no job left) or held (the job is marked `written`). -/
+theorem writerRun_writing (m : M) (w : WriteJob) :
+    (writerRun m w).1.writing = none ∨ (writerRun m w).1.writing = some { w with written := true } := by
   unfold writerRun
   dsimp only
   repeat' split
-  all_goals exact handlePieceWriteDone_writing_none _ _ _
+  all_goals first
+    | exact Or.inl (handlePieceWriteDone_writing_none _ _ _)
+    | (right; simp)
+
+theorem writerRun_jobRank (m : M) (w : WriteJob) : jobRank (writerRun m w).1 ≤ 6 := by
+  unfold jobRank
+  rcases writerRun_writing m w with h | h <;> rw [h] <;> simp
+
+/-- When the result is held (`gate writeDone`) nothing but `sto`, `bad` and `writing` has changed. -/
+theorem writerRun_phase_of_held (m : M) (w : WriteJob) (h : ¬ (writerRun m w).1.writing = none) :
+    phase (writerRun m w).1 = phase m.1 := by
+  revert h
+  unfold writerRun
+  dsimp only
+  repeat' split
+  all_goals first
+    | (intro h; exact absurd (handlePieceWriteDone_writing_none _ _ _) h)
+    | (intro _; simp [phase])
 
 /-! ### the chain ends within the fuel -/
 
-/-- What the quiescence proof carries: the `never_panics` invariant, the verify-flag invariant, and: no
-verification is pending while `Open` fails (the livelock above). -/
+/-- What the quiescence proof carries: the `never_panics` invariant and the verify-flag invariant. -/
 structure QInv (s : St) : Prop where
   full : Full s
   dv : DV s
-  nofl : s.failOpen = true → s.doVerify = false
 
 theorem quiet_of_wrank_zero (s : St) (h : wrank s = 0) : workersQuiet s = true := by
   unfold wrank at h
   have hw : s.writing = none := by
     cases hw : s.writing with
     | none => rfl
-    | some w => simp [hw] at h
+    | some w => unfold jobRank at h; rw [hw] at h; simp only at h; split at h <;> omega
   have hp : phase s = 0 := by omega
   unfold phase at hp
   unfold workersQuiet workersPending
@@ -397,24 +380,30 @@ theorem phase_le_one_of (s : St) (ha : s.allocator = false) (hv : s.verifier = f
 
 theorem QInv.afterStopped {m : M} (h : QInv m.1) (hs : m.1.stopAnn = true) : QInv (handleStopped m).1 :=
   ⟨⟨handleStopped_life m h.full.life hs, handleStopped_comp m h.full.comp, handleStopped_winv m h.full.w h.full.life hs⟩,
-    handleStopped_dv m, by simpa using h.nofl⟩
+    handleStopped_dv m⟩
 
 theorem QInv.afterAlloc {m : M} (h : QInv m.1) (ha : m.1.allocator = true) : QInv (allocatorRun m).1 :=
   ⟨⟨allocatorRun_life m h.full.life ha, allocatorRun_comp m h.full.comp, allocatorRun_winv m h.full.w h.full.life ha⟩,
-    allocatorRun_dv m h.dv, fun hf => allocatorRun_doVerify_false m (h.nofl (by simpa using hf))⟩
+    allocatorRun_dv m h.dv⟩
 
-theorem QInv.afterVerify {m : M} (h : QInv m.1) (hv : m.1.verifier = true) (ha : m.1.allocator = false) :
-    QInv (handleVerificationDone m).1 :=
+theorem QInv.afterVerify {m : M} (h : QInv m.1) (hv : m.1.verifier = true) : QInv (handleVerificationDone m).1 :=
   ⟨⟨handleVerificationDone_life m h.full.life hv, handleVerificationDone_comp m h.full.comp,
       handleVerificationDone_winv m h.full.w h.full.life hv⟩,
-    handleVerificationDone_dv m, fun _ => (handleVerificationDone_post m h.full.w.q ha).2.2.1⟩
+    handleVerificationDone_dv m⟩
 
 theorem QInv.afterWrite {m : M} (h : QInv m.1) (w : WriteJob) (hw : m.1.writing = some w) : QInv (writerRun m w).1 :=
   ⟨⟨writerRun_life m w h.full.life, writerRun_comp m w h.full.comp, writerRun_winv m w h.full.w h.full.life h.full.comp hw⟩,
-    writerRun_dv m w h.dv, by simpa using h.nofl⟩
+    writerRun_dv m w h.dv⟩
 
-/-- **The chain of worker completions ends**: with fuel ≥ `wrank` (≤ 10) `runWorkers` reaches a state in
-which no un-gated completion is pending. -/
+theorem QInv.afterDeliver {m : M} (h : QInv m.1) (w : WriteJob) (e : Bool) (hw : m.1.writing = some w) :
+    QInv (handlePieceWriteDone m w e).1 :=
+  ⟨⟨handlePieceWriteDone_life m w e h.full.life, handlePieceWriteDone_comp m w e h.full.comp,
+      handlePieceWriteDone_winv m w e h.full.w h.full.life h.full.comp hw⟩,
+    handlePieceWriteDone_dv m w e h.dv⟩
+
+/-- **The chain of worker completions ends**: with fuel ≥ `wrank` (≤ 11) `runWorkers` reaches a state in
+which no un-gated completion is pending — from every state of the invariants, whatever the gates, failing
+storage included. -/
 theorem runWorkers_quiet (n : Nat) (m : M) (h : QInv m.1) (hr : wrank m.1 ≤ n) :
     workersQuiet (runWorkers n m).1 = true ∧ QInv (runWorkers n m).1 := by
   induction n generalizing m with
@@ -431,7 +420,8 @@ theorem runWorkers_quiet (n : Nat) (m : M) (h : QInv m.1) (hr : wrank m.1 ≤ n)
       simp only [Bool.and_eq_true, Bool.not_eq_true'] at hs
       obtain ⟨i1, i2, i3, _⟩ := h.full.life.idle (Or.inr hs.1)
       have := phase_handleStopped m hs.1 hs.2 i1 i2 i3
-      exact ih _ (h.afterStopped hs.1) (by unfold wrank at hr ⊢; rw [handleStopped_writing]; omega)
+      have hj : jobRank (handleStopped m).1 = jobRank m.1 := jobRank_congr (by simp)
+      exact ih _ (h.afterStopped hs.1) (by unfold wrank at hr ⊢; omega)
     split
     · next hp hs ha =>
       simp only [Bool.and_eq_true, Bool.not_eq_true'] at ha
@@ -441,10 +431,11 @@ theorem runWorkers_quiet (n : Nat) (m : M) (h : QInv m.1) (hr : wrank m.1 ≤ n)
         rcases (h.dv hd).2 with h1 | h1
         · rw [hrun.2] at h1; cases h1
         · exact h1.1
-      obtain ⟨a, b, c⟩ := allocatorRun_post m h.full.w.q hrun.2 hbf h.nofl
+      obtain ⟨a, b, c⟩ := allocatorRun_post m h.full.w.q hrun hbf
       have h2 := phase_le_two_of _ a b
       have h3 : phase m.1 = 3 := by unfold phase; simp [hrun.2, ha.1]
-      exact ih _ (h.afterAlloc ha.1) (by unfold wrank at hr ⊢; rw [c]; omega)
+      have hj : jobRank (allocatorRun m).1 = jobRank m.1 := jobRank_congr c
+      exact ih _ (h.afterAlloc ha.1) (by unfold wrank at hr ⊢; omega)
     split
     · next hp hs ha hv =>
       simp only [Bool.and_eq_true, Bool.not_eq_true'] at hv
@@ -457,31 +448,40 @@ theorem runWorkers_quiet (n : Nat) (m : M) (h : QInv m.1) (hr : wrank m.1 ≤ n)
       obtain ⟨a, b, c, d⟩ := handleVerificationDone_post m h.full.w.q hal
       have h2 := phase_le_one_of _ a b c
       have h3 : phase m.1 = 2 := by unfold phase; simp [hrun.2, hal, hv.1]
-      exact ih _ (h.afterVerify hv.1 hal) (by unfold wrank at hr ⊢; rw [d]; omega)
+      have hj : jobRank (handleVerificationDone m).1 = jobRank m.1 := jobRank_congr d
+      exact ih _ (h.afterVerify hv.1) (by unfold wrank at hr ⊢; omega)
     split
-    · next hp hs ha hv w hw =>
+    · next hp hs ha hv _ w hw =>
+      have hjm : jobRank m.1 = if w.written then 6 else 7 := by unfold jobRank; rw [hw]
       split
-      · have h1 := writerRun_writing_none m w
-        have h2 := phase_le (writerRun m w).1
-        exact ih _ (h.afterWrite w hw) (by unfold wrank at hr ⊢; rw [h1]; rw [hw] at hr; simp at hr ⊢; omega)
-      · next hg =>
-        refine ⟨?_, h⟩
-        unfold workersQuiet workersPending
-        rw [hw]
-        simp only [Bool.or_eq_true, Bool.not_eq_true', not_or, Bool.not_eq_false] at hg
-        simp_all
-        refine ⟨⟨?_, ?_⟩, ?_⟩
-        · cases h1 : m.1.stopAnn <;> simp_all
-        · cases h1 : m.1.allocator <;> simp_all
-        · cases h1 : m.1.verifier <;> simp_all
-    · next hp hs ha hv hw =>
-      refine ⟨?_, h⟩
-      unfold workersQuiet workersPending
-      rw [hw]
-      simp_all
-      refine ⟨⟨?_, ?_⟩, ?_⟩
-      · cases h1 : m.1.stopAnn <;> simp_all
-      · cases h1 : m.1.allocator <;> simp_all
-      · cases h1 : m.1.verifier <;> simp_all
+      · next hwr =>
+        split
+        · have h1 : jobRank (handlePieceWriteDone m w false).1 = 0 := by
+            unfold jobRank; rw [handlePieceWriteDone_writing_none]
+          have h2 := phase_le (handlePieceWriteDone m w false).1
+          exact ih _ (h.afterDeliver w false hw) (by unfold wrank at hr ⊢; rw [hjm, hwr] at hr; simp at hr; omega)
+        · next hg =>
+          refine ⟨quiet_of_guards m.1 (by simpa using hp) hs ha hv (fun w' hw' => ?_), h⟩
+          rw [hw] at hw'; cases hw'
+          exact ⟨fun _ => hg, fun h' => by rw [hwr] at h'; cases h'⟩
+      · next hwr =>
+        split
+        · have h1 := writerRun_jobRank m w
+          have h2 := phase_le (writerRun m w).1
+          have h3 := phase_le m.1
+          -- the lifecycle part may rise (the result may stop the torrent), never above 4; the job's part drops
+          have hw7 : jobRank m.1 = 7 := by rw [hjm]; simp [hwr]
+          by_cases hheld : (writerRun m w).1.writing = none
+          · have h0 : jobRank (writerRun m w).1 = 0 := by unfold jobRank; rw [hheld]
+            exact ih _ (h.afterWrite w hw) (by unfold wrank at hr ⊢; omega)
+          · -- held: nothing but `sto`, `bad`, `writing` changed, the phase is the same
+            have hph : phase (writerRun m w).1 = phase m.1 := writerRun_phase_of_held m w hheld
+            exact ih _ (h.afterWrite w hw) (by unfold wrank at hr ⊢; omega)
+        · next hg =>
+          refine ⟨quiet_of_guards m.1 (by simpa using hp) hs ha hv (fun w' hw' => ?_), h⟩
+          rw [hw] at hw'; cases hw'
+          exact ⟨fun h' => absurd h' hwr, fun _ => hg⟩
+    · next hp hs ha hv _ hw =>
+      exact ⟨quiet_of_guards m.1 (by simpa using hp) hs ha hv (fun w' hw' => by rw [hw] at hw'; cases hw'), h⟩
 
 end Rain.Loop
